@@ -24,7 +24,7 @@ TRUSTED = [
 ]
 ASSUMPTIONS = ['the representation is a non-empty in-memory body (BytesIO); chunked/content-coded responses and non-GET requests are "unchanged" by construction']
 RULE = ('all 0 <= first < last < n for n <= 24 (thorough: 64) + sampled up to 4096; 2-4 disjoint ranges of similar size in several request orders; open/suffix/out-of-range ranges; '
-	'malformed values (non-digits, signs, underscores, missing unit, reversed, empty elements); condition flags (method, protocol, validator, status); '
+	'malformed values (non-digits, signs, underscores, missing unit, reversed, empty elements); condition flags (method, protocol, validator, status); the validator a strong, weak or unquoted entity tag and/or a Last-Modified date in the three HTTP-date forms; '
 	'non-trivial = 206 with a proper sub-slice; distinct by canonical outcome')
 
 FLAGS = ('respProto11', 'reqProto11', 'status200', 'methodGET', 'etag', 'lastmod', 'notChunked')
@@ -56,7 +56,8 @@ def cases(rng, tier):
 		l = rng.randrange(f + 1, n)
 		if rng.random() < 0.3:
 			l = rng.choice((n - 1, min(n - 1, f + 1)))
-		yield ('r', DEFAULT, n, b'bytes=%d-%d' % (f, l))
+		vflags = rng.choice((DEFAULT, DEFAULT, (1, 1, 1, 1, 1, 1, 1), (1, 1, 1, 1, 0, 1, 1)))
+		yield ('r', vflags, n, b'bytes=%d-%d' % (f, l), rng.randrange(len(ETAGS) * len(LASTMODS)))
 	for _ in range(k):
 		n = rng.choice((40, 100, 1000, 4096))
 		cnt = rng.choice((2, 2, 3, 4))
@@ -67,7 +68,7 @@ def cases(rng, tier):
 		specs = [b'%d-%d' % (s, s + size + rng.choice((0, 0, 0, 1))) for s in starts]
 		specs = [x for x in specs]
 		rng.shuffle(specs)
-		yield ('r', DEFAULT, n, b'bytes=' + rng.choice((b',', b', ', b' ,')).join(specs))
+		yield ('r', DEFAULT, n, b'bytes=' + rng.choice((b',', b', ', b' ,')).join(specs), rng.randrange(len(ETAGS)))
 	for _ in range(k // 2):
 		n = rng.choice((10, 64, 300))
 		v = rng.choice([b'bytes=%d-' % rng.randrange(0, n + 5), b'bytes=-%d' % rng.randrange(0, n + 5), b'bytes=%d-%d' % (rng.randrange(0, n + 5), rng.randrange(0, n + 9)),
@@ -88,11 +89,16 @@ def search(rng, res):
 def model_lines(case):
 	if case[0] == 'p':
 		return ['rng.parse %s' % hx(case[1])]
-	flags, n, v = case[1:]
+	flags, n, v = case[1:4]
+	var = case[4] if len(case) > 4 else 0
 	return ['rng.prepare %s %s %s' % (' '.join(str(x) for x in flags), hx(body(n)), hx(v))]
 
 
-def run(flags, n, v):
+ETAGS = ('"v1"', 'W/"v1"', 'foo', '""', 'W/""', '"a b"', '"W/x"')
+LASTMODS = ('Sun, 06 Nov 1994 08:49:37 GMT', 'Sunday, 06-Nov-94 08:49:37 GMT', 'Sun Nov  6 08:49:37 1994', 'Thu, 01 Jan 1970 00:00:00 GMT')
+
+
+def run(flags, n, v, var=0):
 	from httoop import Request, Response
 	from httoop.semantic.response import ComposedResponse
 	respP, reqP, st200, get, etag, lastmod, notchunked = flags
@@ -108,9 +114,9 @@ def run(flags, n, v):
 		if mode == 2:
 			resp.body.read(max(1, n // 2))
 	if etag:
-		resp.headers['ETag'] = '"v1"'
+		resp.headers['ETag'] = ETAGS[var % len(ETAGS)]          # strong, weak, unquoted: any validator will do for a plain Range request
 	if lastmod:
-		resp.headers['Last-Modified'] = 'Sun, 06 Nov 1994 08:49:37 GMT'
+		resp.headers['Last-Modified'] = LASTMODS[(var // len(ETAGS)) % len(LASTMODS)]
 	if not notchunked:
 		resp.headers['Transfer-Encoding'] = 'chunked'
 	c = ComposedResponse(resp, req)
@@ -141,9 +147,10 @@ def impl_lines(case):
 			return ['ok %s %s' % (hx(r.value.encode('latin-1')), ' '.join('%s-%s' % x for x in r.ranges))]
 		except Exception as e:
 			return ['err ' + exc_name(e)]
-	flags, n, v = case[1:]
+	flags, n, v = case[1:4]
+	var = case[4] if len(case) > 4 else 0
 	try:
-		resp = run(flags, n, v)
+		resp = run(flags, n, v, var)
 		st = int(resp.status)
 		if st == 206:
 			ct = resp.headers.get('Content-Type') or ''
@@ -163,10 +170,11 @@ VALID = re.compile(br'^[^=]+=(?:\d+-\d*|-\d+)(?:,(?:\d+-\d*|-\d+))*$')
 def oracle(case):
 	if case[0] != 'r':
 		return None
-	flags, n, v = case[1:]
+	flags, n, v = case[1:4]
+	var = case[4] if len(case) > 4 else 0
 	data = body(n)
 	try:
-		resp = run(flags, n, v)
+		resp = run(flags, n, v, var)
 	except Exception as e:
 		return {'what': 'prepare() raised %s: %s' % (exc_name(e), e), 'range': v.decode('latin-1'), 'n': n, 'finding': None}
 	st = int(resp.status)
@@ -218,13 +226,13 @@ def tally(case, res):
 def describe(case):
 	if case[0] == 'p':
 		return ['p', case[1].hex()]
-	return ['r', list(case[1]), case[2], case[3].hex()]
+	return ['r', list(case[1]), case[2], case[3].hex()] + list(case[4:])
 
 
 def undescribe(d):
 	if d[0] == 'p':
 		return ('p', bytes.fromhex(d[1]))
-	return ('r', tuple(d[1]), d[2], bytes.fromhex(d[3]))
+	return ('r', tuple(d[1]), d[2], bytes.fromhex(d[3])) + tuple(d[4:])
 
 
 def finding_still_fails(k):
